@@ -25,6 +25,7 @@ const DATA: usize = 96;
 fn main() {
     let args = Args::parse();
     let mut sh = Shard::new("C03", &args);
+    vh::shard::quiet_panics();
     let n = args.cases(6_000, 600_000);
     for i in 0..n {
         let case = args.case_id(i);
@@ -34,11 +35,11 @@ fn main() {
             }
         }
         let mut rng = args.rng().fork(case);
-        match case % 3 {
-            0 => run_case::<1>(&mut rng, &mut sh, case),
-            1 => run_case::<2>(&mut rng, &mut sh, case),
-            _ => run_case::<4>(&mut rng, &mut sh, case),
-        }
+        sh.guard_case(case, |sh| match case % 3 {
+            0 => run_case::<1>(&mut rng, sh, case),
+            1 => run_case::<2>(&mut rng, sh, case),
+            _ => run_case::<4>(&mut rng, sh, case),
+        });
     }
     sh.finish();
 }
